@@ -4,11 +4,11 @@
 Require Import ExtrOcamlBasic.
 From Coq Require Import List NArith ZArith.
 From GV Require Import Base.Result Gen.TokenTypes Gen.Defs Gen.Instr Model.Parser Model.BuilderWL
-  Model.Compile Spec.Depth Proofs.C05.Known Proofs.C06.Known.
+  Model.Compile Spec.Depth Proofs.C05.Known Proofs.C06.Known Proofs.C06.Balanced.
 Cd "../build/ocaml".
 Extraction "depth_model.ml" parse trim_tokens build build_fuel empty_init all_token_type all_instruction
   definition_index secondary_index instruction_index token_type_index Z.of_N N.of_nat N.to_nat
   compile_nodes same_code tree_of
   prog_of_build infer_depths check_typed asteps a_init pjump pinstr dmap_of total_regs total_values effect succs
-  has_chain_no_else has_empty_value has_reapply_pending has_chain_early_else has_terminator.
+  has_chain_no_else has_empty_value has_reapply_pending has_chain_early_else has_terminator balanced.
 Cd "../../coq".
